@@ -560,4 +560,67 @@ theorem firstDiffBin_differs (n : Nat) (a e : Bytes) (ha : n ≤ a.length) (he :
           · omega
           · simpa using hxy
 
+/-! ## the reads of the leaked memory -/
+
+theorem dumpPiecesRd_spec (size : Nat) (mem : Bytes) (h : size ≤ mem.length) :
+    ∀ (fuel pos : Nat), dumpPiecesRd fuel size mem pos = .ok (dumpPieces fuel pos ((mem.take size).drop pos)) := by
+  intro fuel
+  induction fuel with
+  | zero => intro pos; rfl
+  | succ fuel ih =>
+    intro pos
+    unfold dumpPiecesRd dumpPieces
+    have hT : (mem.take size).length = size := by rw [List.length_take]; omega
+    by_cases hp : pos < size
+    · have hne : ((mem.take size).drop pos).isEmpty = false := by
+        cases hq : (mem.take size).drop pos with
+        | nil => have := congrArg List.length hq; simp [hT] at this; omega
+        | cons _ _ => rfl
+      have hrange : readRange mem pos (min (size - pos) dumpLineBytes) = .ok (((mem.take size).drop pos).take dumpLineBytes) := by
+        unfold readRange
+        have : pos + min (size - pos) dumpLineBytes ≤ mem.length := by omega
+        simp only [this, if_true]
+        rw [List.drop_take, List.take_take, Nat.min_comm]
+      have hlen : (((mem.take size).drop pos).take dumpLineBytes).length = min (size - pos) dumpLineBytes := by
+        rw [List.length_take, List.length_drop, hT, Nat.min_comm]
+      have hdrop : ((mem.take size).drop pos).drop dumpLineBytes = (mem.take size).drop (pos + min (size - pos) dumpLineBytes) := by
+        rw [List.drop_drop]
+        by_cases hc : dumpLineBytes ≤ size - pos
+        · rw [Nat.min_eq_right hc]
+        · have e1 : min (size - pos) dumpLineBytes = size - pos := Nat.min_eq_left (by omega)
+          rw [e1, List.drop_of_length_le (by rw [hT]; omega), List.drop_of_length_le (by rw [hT]; omega)]
+      simp only [hp, if_true, hrange, hne, hlen, ih, hdrop]
+      rfl
+    · have he : ((mem.take size).drop pos).isEmpty = true := by
+        rw [List.drop_of_length_le (by rw [hT]; omega)]; rfl
+      simp [hp, he]
+
+/-- the abstract leak a readable table entry stands for -/
+def LeakRef.toLeak (l : LeakRef) : Leak :=
+  { number := l.number, size := l.size, file := l.file, line := l.line, allocName := l.allocName, ptr := l.ptr,
+    content := l.readable.take l.size }
+
+/-- the caller-side contract of `report()`: every block in the table is still allocated with at
+    least `size_` readable bytes -/
+def LeakRef.Live (l : LeakRef) : Prop := ∃ b, l.block = some b ∧ l.size ≤ b.length
+
+theorem reportLeakRd_spec (o : OutBuf) (l : LeakRef) (h : l.Live) : o.reportLeakRd l = .ok (o.reportLeak l.toLeak) := by
+  obtain ⟨b, hb, hs⟩ := h
+  have hr : l.readable = b := by simp [LeakRef.readable, hb]
+  have hlen : (b.take l.size).length = l.size := by rw [List.length_take]; omega
+  unfold OutBuf.reportLeakRd
+  rw [hr, dumpPiecesRd_spec l.size b hs l.size 0]
+  simp only [OutBuf.reportLeak, Buf.addMemoryDump, LeakRef.toLeak, hr, hlen, List.drop_zero, leakText]
+
+theorem reportLeaksRd_spec (leaks : List LeakRef) : ∀ (o : OutBuf), (∀ l ∈ leaks, l.Live) →
+    reportLeaksRd o leaks = .ok ((leaks.map LeakRef.toLeak).foldl OutBuf.reportLeak o) := by
+  induction leaks with
+  | nil => intro o _; rfl
+  | cons l ls ih =>
+    intro o h
+    unfold reportLeaksRd
+    rw [reportLeakRd_spec o l (h l (by simp))]
+    simp only [List.map_cons, List.foldl_cons]
+    exact ih _ (fun x hx => h x (by simp [hx]))
+
 end Diag
